@@ -193,6 +193,7 @@ async fn process_leader_message(
                 .pdelete(pattern, INTERNAL_CLIENT_ID)
                 .await
                 .map(|_| ()),
+            ClientWriteCommand::Import(json) => worterbuch.import(&json).await.map(|_| ()),
         },
     };
 
